@@ -634,16 +634,6 @@ Proof.
   cbn [concat] in H. rewrite forallb_app in H. apply andb_true_iff in H. destruct H. constructor; [apply okgroup_of|]; auto.
 Qed.
 
-Theorem run_meets_spec s : valid s = true -> spec s (run s) = true.
-Proof.
-  unfold valid, spec, run. intro H. apply andb_true_iff in H. destruct H as [Ht Hpost].
-  rewrite run_with_files. cbn [fst snd].
-  replace (ops_names [] (flat_map fst (s_tests s) ++ s_post s))
-    with (group_names [] (osegments (s_tests s)) ++ ops_names (groups_pkg [] (osegments (s_tests s))) (s_post s) ++ [])
-    by (rewrite app_nil_r, group_names_flat, osegments_concat; reflexivity).
-  rewrite spec_groups_files; [reflexivity | reflexivity | apply segments_okgroup; exact Ht | reflexivity].
-Qed.
-
 (* the files of a run, one per segment, each named after the package in force when the group ended and parsing to tree_of *)
 Fixpoint trees_of (pkg : bytes) (gs : list (list otest)) (printed : bytes) : list (bytes * option node) :=
   match gs with
@@ -661,15 +651,6 @@ Proof.
   cbn [group_files trees_of map fst snd]. rewrite createFileName_spec, (group_roundtrip (group_pkg pkg g) (map snd g) printed Hp' Hg1 Hpr).
   f_equal. apply IH; try assumption. rewrite oktext_app, Hpr. apply tests_printed_ok. exact Hg1.
 Qed.
-Theorem roundtrip s : valid s = true ->
-  map (fun f => (fst f, xml_parse (snd f))) (fst (run s)) = trees_of [] (osegments (s_tests s)) []
-  /\ snd (run s) = ops_names [] (flat_map fst (s_tests s) ++ s_post s).
-Proof.
-  unfold valid, run. intro H. apply andb_true_iff in H. destruct H as [Ht Hpost].
-  rewrite run_with_files. cbn [fst snd]. split; [|reflexivity].
-  apply roundtrip_files; [reflexivity | apply segments_okgroup; exact Ht | reflexivity].
-Qed.
-
 (* the package "at the time": the latest setPackageName wins, createFileName calls change nothing *)
 Definition is_set (o : op) : bool := match o with OSetPkg _ => true | OFileName _ => false end.
 Lemma ops_pkg_no_set ops : forall P, existsb is_set ops = false -> ops_pkg P ops = P.
@@ -683,14 +664,6 @@ Lemma filename_follows_package g1 g2 P :
   map fst (trees_of P [g1; g2] []) =
   [expected_filename (group_pkg P g1) (group_name (map snd g1)); expected_filename (group_pkg (group_pkg P g1) g2) (group_name (map snd g2))].
 Proof. reflexivity. Qed.
-
-(* ================= the code before the repair of D14 (names copied into attribute values unescaped) ================= *)
-Definition d14_witness : scenario :=
-  {| s_tests := [([], {| t_group := [71]; t_name := [34]; t_file := [102]; t_line := 1; t_ignored := false; t_body := [] |})]; s_post := [] |}.
-Lemma run_old_refuted : ~ (forall s, valid s = true -> spec s (run_old s) = true).
-Proof. intro H. specialize (H d14_witness eq_refl). vm_compute in H. discriminate H. Qed.
-Lemma run_old_illformed : map (fun f => xml_accepts (snd f)) (fst (run_old d14_witness)) = [false].
-Proof. vm_compute. reflexivity. Qed.
 
 (* the parser does reject what the unrepaired writer produced: a raw '<', or a '&' that starts no reference, inside a value *)
 Lemma value_rejects_lt S R nm A an q acc cr rest : q <> 60 -> run_sm (mk S R (MAttrVal nm A an q acc cr)) (60 :: rest) = None.
@@ -706,22 +679,3 @@ Proof.
   destruct (bytes_eqb fn nm) eqn:E; [|reflexivity]. apply bytes_eqb_eq in E. contradiction.
 Qed.
 
-(* hypotheses are satisfiable: a run with two groups, a failing, an ignored and a printing test and markup characters everywhere;
-   createFileName is asked before any package is set, the package is set late, changed inside the first group, changed again
-   before the second group and once more after the run *)
-Definition example_run : scenario :=
-  {| s_tests := [ ([OFileName [71; 60]; OSetPkg [112; 38]],
-                   {| t_group := [71; 60]; t_name := [116; 34]; t_file := [97; 62]; t_line := 10; t_ignored := false;
-                      t_body := [SPrint [104; 60; 10]; SFail [98; 38] 5 [109; 38; 13; 93; 93; 62]; SFailStop [99] 6 [110]; SPrint [120]] |});
-                  ([OSetPkg [113]; OFileName [72]],
-                   {| t_group := [71; 60]; t_name := [117]; t_file := [97]; t_line := 11; t_ignored := true; t_body := [] |});
-                  ([OSetPkg []],
-                   {| t_group := [72]; t_name := [118]; t_file := [97]; t_line := 12; t_ignored := false; t_body := [] |}) ];
-     s_post := [OFileName [72]; OSetPkg [58]; OFileName [72]] |}.
-Lemma example_valid : valid example_run = true /\ length (fst (run example_run)) = 2%nat /\ spec example_run (run example_run) = true.
-Proof. vm_compute. auto. Qed.
-(* cpputest_G_.xml (no package yet), cpputest_q_H.xml, then the files cpputest_q_G_.xml and cpputest_H.xml, then cpputest_H.xml, cpputest___H.xml *)
-Lemma example_names :
-  snd (run example_run) = [B "cpputest_G_.xml"%string; B "cpputest_q_H.xml"%string; B "cpputest_H.xml"%string; B "cpputest___H.xml"%string]
-  /\ map fst (fst (run example_run)) = [B "cpputest_q_G_.xml"%string; B "cpputest_H.xml"%string].
-Proof. vm_compute. auto. Qed.
